@@ -38,7 +38,7 @@ def gen_plan(seed, i, tier):
         init = synth.synth_init(rng.choice(synth.VERSIONS), t, rng.below(1 << 20), k=2)
     synth_init = 'synth' in init
     swarm = edits.swarm_subset(rng)
-    safe = ['AddNode', 'AddExtraData', 'AddLooseBlock', 'SetNodeName', 'SetNodeTransform', 'PrettySort', 'Optimize', 'DeleteUnreferenced', 'ReplaceWithClone', 'TrimTexturePaths', 'FixBSXFlags', 'FixShaderFlags', 'MoveBlocks', 'UnlinkFromNode', 'RebuildRefArray']
+    safe = ['AddNode', 'AddExtraData', 'AddLooseBlock', 'SetNodeName', 'SetNodeTransform', 'PrettySort', 'Optimize', 'DeleteUnreferenced', 'ReplaceWithClone', 'TrimTexturePaths', 'FixBSXFlags', 'FixShaderFlags', 'MoveBlocks', 'UnlinkFromNode', 'RebuildRefArray', 'SetExportInfo', 'DeleteUnreferencedTyped']
     steps = []
     for _ in range(rng.range(0, 8)):
         if rng.chance(0.2):
